@@ -64,6 +64,19 @@ def step' : List String → String
       ";".intercalate (s.snaps.map fun sn =>
         s!"{sn.rid}:{sn.seen.conn}:{sn.seen.seq}:{sn.seen.flags}:{sn.seen.serId}:{natListToString sn.seen.anns}:{sn.seen.corr}")
     | none => "bad-op"
+  | "client" :: n :: rest =>
+    -- client <n> {<connects> <handshake-anns> <reply-anns|none>}*   →  observed annotations after each call
+    let rec go : Nat → List String → Option (List ClientCall)
+      | 0, [] => some []
+      | k + 1, c :: h :: r :: more => do
+        let h ← parseNatList h
+        let rep ← if r == "none" then some none else (parseNatList r).map some
+        let tl ← go k more
+        some (⟨c == "1", h, rep⟩ :: tl)
+      | _, _ => none
+    match n.toNat?.bind (fun k => go k rest) with
+    | some cs => ";".intercalate ((clientRun [999] cs).map natListToString)
+    | none => "bad-op"
   | _ => "bad-op"
 
 def main : IO Unit := runDriver step'
